@@ -2,6 +2,7 @@
 import re
 
 import core
+import fakesock
 import sx
 import refpath
 from props import transcripts as tr
@@ -215,6 +216,38 @@ def run(ctx, model):
             if bytes.fromhex(d_) != data or int(svc) != 0x0E:
                 ctx.violation("request-altered:data", case, "service %s data %s" % (svc, d_))
         sess.close()
+    # the same across close() / open() cycles, also for a route with several hops: what the first open() made of the
+    # configured route is what every later connection uses
+    from pycomm3 import LogixDriver as _LD
+    from pycomm3.cip import PADDED_EPATH as _PE
+    combos = [(pa, mi) for pa in ("10.0.0.1", "10.0.0.1/bp/1/enet/10.11.12.13/bp/0", "10.0.0.1/bp/2", "10.0.0.1/bp/1/enet/10.11.12.13/bp/3")
+              for mi in (True, False)]
+    for i, (path, micro) in enumerate(combos * ctx.budget(1, 3)):
+        p = lg.gen_project(rng, n_templates=1, n_tags=3)
+        p["micro800"] = micro
+        name = b"2080-LC50" if micro else b"1756-L83E/B"
+        scn = fakesock.base_scenario(policy=(True, True, True), major=p["rev"], name=name) + " " + lg.scenario_sx(p)
+        assert model.ask("target.new " + scn) == "ok"
+        d = _LD(path, init_tags=False)
+        case = {"driver": "LogixDriver(%r)" % path, "micro800": micro, "index": i, "history": "open, close, open, close, open"}
+        ctx.case("route-across-reopen", ("reopen-route", path, micro))
+        routes = []
+        try:
+            for cyc in range(3):
+                sock = fakesock.TargetSocket(model, {})
+                d._sock = sock
+                core.with_budget(60, d.open)
+                routes.append(_PE.encode(d._cfg["cip_path"], length=True))
+                d.generic_message(service=0x0E, class_code=0x70, instance=1, attribute=1, connected=False, unconnected_send=True,
+                                  route_path=True, name="g")
+                d.close()
+        except BaseException as e:  # noqa
+            if isinstance(e, (KeyboardInterrupt, SystemExit)):
+                raise
+            ctx.count("route-across-reopen/raised/" + core.exn_class(e))
+        if len(set(routes)) > 1:
+            ctx.violation("request-altered:route-changes-across-reopen", case,
+                          "connection route after each open(): %s" % [r.hex() for r in routes])
     # helpers: PLC name, info, time set/get
     from pycomm3 import LogixDriver
     for i in range(ctx.budget(60, 600)):
